@@ -17,11 +17,15 @@ META = {
         "<own _run_request result>['result'], _run_request returns None only for an empty body and otherwise loads(<own "
         "transport result>), getparser builds a fresh parser and target per call, JSONTarget.close returns \"\" for no data and "
         "otherwise the join of what was fed to that target, and no method of the client-side classes stores per-response data "
-        "on a long-lived object (allowed cross-call state: _connection, _extra_headers, verbose, the header stack)."),
+        "on a long-lived object (allowed cross-call state: _connection, _extra_headers, verbose, the header stack); C19.4 the "
+        "constructors of the three transports, of the Unix connection and of TransportError run the constructors of their bases on every "
+        "normal path (the stdlib transport sets up the connection cache that close() and the recovery rely on; TransportError carries "
+        "URL and status through ProtocolError), and UnixTransport.make_connection returns the connection it caches."),
     "does_not_decide": "recovery within one call, stale/foreign responses caused by the http.client connection state "
                        "machine or by the retry inside xmlrpc.client.Transport.request (external fault-sequence behaviour).",
     "rules": {"C19.1": "handler structure + dominance", "C19.2": "normalised status test + dominance + raise-site arguments",
-              "C19.3": "provenance of returned values + store scan against the allowed cross-call state table (spec A.10)"},
+              "C19.3": "provenance of returned values + store scan against the allowed cross-call state table (spec A.10)",
+              "C19.4": "must-call of base constructors on normal paths; provenance of make_connection's result"},
     "assumptions": ["xmlrpc.client.Transport.close() drops the cached connection; parse_response feeds the parser returned by getparser()"],
 }
 
@@ -196,3 +200,22 @@ def check(ck):
                                        "observe a previous response" % (q.stmt_text(n)[:50], cname, sorted(allowed)), q.loc(fi, n))
     ck.stat("client_state_stores", n3)
     ck.floor("C19.3", 8)
+
+    # ---- C19.4 constructor chain of the client classes; the Unix transport returns the connection it caches ----------------------
+    from rules import common
+    common.check_base_constructors(ck, "C19.4", classes=[k for k in common.BASE_INITS if k.startswith("jsonrpc.")])
+    fmc = prog.func("jsonrpc", "UnixTransport.make_connection")
+    gmc = cfg_of(fmc)
+    for (rn, val) in q.return_sources(fmc):
+        t = prov.origin(gmc, rn, val) if val is not None else ("const", None)
+        okk = t == ("item", ("attr", ("param", "self"), "_connection"), ("const", 1))
+        ck.require(okk, "C19.4", "%s: `%s`" % (q.fn(fmc), q.stmt_text(rn)[:50]), "returns self._connection[1]",
+                   "make_connection returns %s, not the connection object it caches in self._connection: every exchange over a Unix socket "
+                   "(or every one after the first) has no connection to use" % prov.show(t)[:60], q.loc(fmc, rn))
+    stores = [n for n in gmc.live_nodes() if n.kind == "stmt" and isinstance(n.ast, ast.Assign) and any(dump(t_) == "self._connection" for t_ in n.ast.targets)]
+    okk = len(stores) == 1 and isinstance(stores[0].ast.value, ast.Tuple) and len(stores[0].ast.value.elts) == 2 and \
+        all(a_ == ("param", "host") or (a_[0] == "attr" and a_[1] == ("param", "self")) for a_ in prov.value_alts(prov.origin(gmc, stores[0], stores[0].ast.value.elts[0]))) and \
+        isinstance(stores[0].ast.value.elts[1], ast.Call) and dump(stores[0].ast.value.elts[1].func) == "UnixHTTPConnection"
+    ck.require(okk, "C19.4", "%s: cache entry" % q.fn(fmc), "self._connection = host, UnixHTTPConnection(path)",
+               "the connection cache is not filled with (host key, new Unix connection)", q.loc(fmc, fmc.node))
+    ck.floor("C19.4", 8)
